@@ -54,6 +54,9 @@ Shape(t) ==
     [] t.k = "res" -> FlaggedS((IF t.ok.k = "unit" THEN <<>> ELSE <<Shape(t.ok)>>) \o (IF t.err.k = "unit" THEN <<>> ELSE <<Shape(t.err)>>))
     [] t.k = "unit" -> VoidS
     [] t.k = "cb" -> StructS(<<PtrS, PtrS, PtrS>>)          \* {data, run_callback, destructor}
+    \* `impl Trait`: {data, vtable {destructor, SIZE, ALIGNMENT, one entry point per trait method}} (macro gen_custom_vtable,
+    \* tool/templates/c/trait.h.jinja); passed by value like any struct
+    [] t.k = "trait" -> StructS(<<PtrS, StructS(<<PtrS, SizeT(FALSE), SizeT(FALSE)>> \o [i \in 1..Len(t.ms) |-> PtrS])>>)
 
 \* ---- native signature ------------------------------------------------------------------------
 \* self first, then the parameters in declaration order, the write handle last
